@@ -30,12 +30,53 @@ const (
 	kString
 	kInt32CRC
 	kIntCRC
+	kByte
+	kInt8
+	kInt16
+	kUInt16
+	kUInt32
+	kUInt64
+	kUInt
+	kUInt32CRC
+	kUIntCRC
+	kBytes
 	nKinds
 )
 
-var kindNames = []string{"Int", "Int64", "Int32", "Int64CRC", "UInt64CRC", "String", "Int32CRC", "IntCRC"}
+var kindNames = []string{"Int", "Int64", "Int32", "Int64CRC", "UInt64CRC", "String", "Int32CRC", "IntCRC",
+	"Byte", "Int8", "Int16", "UInt16", "UInt32", "UInt64", "UInt", "UInt32CRC", "UIntCRC", "Bytes"}
 
-func kindIdentity(kind int) bool { return kind == kInt || kind == kInt64 || kind == kInt32 }
+// the ids a key type can carry: a key is written id everywhere (for the unsigned 64-bit types the value is uint64(id),
+// so a negative id stands for a value >= 2^63)
+func kindRange(kind int) (lo, hi int64) {
+	switch kind {
+	case kByte:
+		return 0, 255
+	case kInt8:
+		return -128, 127
+	case kInt16:
+		return -32768, 32767
+	case kUInt16:
+		return 0, 65535
+	case kInt32, kInt32CRC:
+		return -2147483648, 2147483647
+	case kUInt32, kUInt32CRC:
+		return 0, 4294967295
+	}
+	return -9223372036854775808, 9223372036854775807
+}
+
+// for these types HashedInt() is the id itself (a plain conversion to int); the others hash with crc32
+func kindIdentity(kind int) bool {
+	switch kind {
+	case kInt, kInt64, kInt32, kByte, kInt8, kInt16, kUInt16, kUInt32, kUInt64, kUInt:
+		return true
+	}
+	return false
+}
+
+// mux.Bytes is a []byte: it hashes, but it cannot be a key of either real cache facade (not comparable)
+func kindCacheable(kind int) bool { return kind != kBytes }
 
 func mkKey(kind int, id int64) mux.Hashed2Int {
 	switch kind {
@@ -55,8 +96,37 @@ func mkKey(kind int, id int64) mux.Hashed2Int {
 		return mux.Int32CRC(id)
 	case kIntCRC:
 		return mux.IntCRC(id)
+	case kByte:
+		return mux.Byte(id)
+	case kInt8:
+		return mux.Int8(id)
+	case kInt16:
+		return mux.Int16(id)
+	case kUInt16:
+		return mux.UInt16(id)
+	case kUInt32:
+		return mux.UInt32(id)
+	case kUInt64:
+		return mux.UInt64(uint64(id))
+	case kUInt:
+		return mux.UInt(uint64(id))
+	case kUInt32CRC:
+		return mux.UInt32CRC(id)
+	case kUIntCRC:
+		return mux.UIntCRC(uint64(id))
+	case kBytes:
+		return mux.Bytes("k" + strconv.FormatInt(id, 10))
 	}
 	panic("kind")
+}
+
+// the key the real cache facade is given: the key itself, except for mux.Bytes, which the group can route (HashedInt)
+// but no facade can store - the logging facade hands the real one a string with the same content
+func cacheKey(k interface{}) interface{} {
+	if b, ok := k.(mux.Bytes); ok {
+		return mux.String("bytes:" + string(b))
+	}
+	return k
 }
 
 // tkey: the key handed to the group in scheduled runs.  It hashes like the real key it wraps and carries the
@@ -88,8 +158,28 @@ func keyID(k interface{}) int64 {
 		return int64(x)
 	case mux.IntCRC:
 		return int64(x)
+	case mux.Byte:
+		return int64(x)
+	case mux.Int8:
+		return int64(x)
+	case mux.Int16:
+		return int64(x)
+	case mux.UInt16:
+		return int64(x)
+	case mux.UInt32:
+		return int64(x)
+	case mux.UInt64:
+		return int64(x)
+	case mux.UInt:
+		return int64(x)
+	case mux.UInt32CRC:
+		return int64(x)
+	case mux.UIntCRC:
+		return int64(x)
+	case mux.Bytes:
+		return keyID(mux.String(x))
 	case mux.String:
-		if v, err := strconv.ParseInt(strings.TrimPrefix(string(x), "k"), 10, 64); err == nil {
+		if v, err := strconv.ParseInt(strings.TrimPrefix(strings.TrimPrefix(string(x), "bytes:"), "k"), 10, 64); err == nil {
 			return v
 		}
 	}
@@ -484,6 +574,8 @@ type hist struct {
 
 	// scheduled runs only
 	gate func(oc *opCtx, cacheIdx int) // blocks a worker goroutine before an instrumented call
+
+	apiNote string // an accessor of the group answered something else than what it was built with
 }
 
 func newHist(init map[int64]int64) *hist {
@@ -663,9 +755,9 @@ type wcache struct {
 
 func strip(key interface{}) (interface{}, *opCtx) {
 	if t, ok := key.(tkey); ok {
-		return t.base, t.oc
+		return cacheKey(t.base), t.oc
 	}
-	return key, nil
+	return cacheKey(key), nil
 }
 func opID(oc *opCtx) int {
 	if oc == nil {
@@ -730,7 +822,7 @@ func (c *wcache) Delete(key interface{}) {
 // what the group's caches hold for a key, read below the logging layer without touching the LRU order.
 // A key found in more than one worker's cache is reported as the impossible value -1.
 func (h *hist) cachedValue(kind int, id int64) (val, bool) {
-	key := mkKey(kind, id)
+	key := cacheKey(mkKey(kind, id))
 	found := 0
 	var x val
 	for _, c := range h.caches {
@@ -789,7 +881,20 @@ func buildGroup(g *grpSpec, h *hist) *mux.WorkerGrp {
 	default:
 		grp = mux.NewWorkGrpWithLRU(int64(g.Cap), opts...)
 	}
+	// the accessors of the group answer what it was built with
+	if grp.MuxSize() != g.N {
+		h.apiNote = fmt.Sprintf("MuxSize() = %d for a group built with %d workers", grp.MuxSize(), g.N)
+	}
+	if want := map[bool]int{true: mux.DefaultDeepSize, false: g.Deep}[g.Deep == 0]; grp.DeepSize() != want {
+		h.apiNote = fmt.Sprintf("DeepSize() = %d for a group built with queue bound %d", grp.DeepSize(), want)
+	}
 	grp.Start()
+	// nothing has stopped the group: WaitStop under a context that is already done reports that context
+	dead, cancelDead := context.WithCancel(context.Background())
+	cancelDead()
+	if grp.WaitStop(dead) == nil {
+		h.apiNote = "WaitStop returned nil under a cancelled context although the group was never stopped"
+	}
 	return grp
 }
 
@@ -881,4 +986,21 @@ func coqStoreSnap(vals []val) string {
 		out[i] = vals[i].coq()
 	}
 	return vh.CoqList(out)
+}
+
+
+// the GetK accessors of the seven op-codes answer the key they were built with
+func opcodeAccessorsOK() bool {
+	k := mux.Int(41)
+	ops := []mux.OpCode{
+		mux.NewLoad(nil, k), mux.NewAdd(nil, k, 1), mux.NewUpdate(nil, nil, k, 1), mux.NewDelete(nil, k),
+		mux.NewMixUpdOrAddIfNull(nil, nil, nil, nil, k, 1), mux.NewMixUpsertThenLoad(nil, nil, k, 1),
+		mux.NewMixUpsertThenRenewInCache(nil, k, 1),
+	}
+	for _, o := range ops {
+		if o.GetK() != interface{}(k) {
+			return false
+		}
+	}
+	return true
 }
